@@ -128,6 +128,25 @@ def run(ck):
         dens = ck.rng.choice([0.15, 0.3, 0.5, 0.8])
         rows = [[ck.rng.random() < dens for _ in range(E)] for _ in range(P)]
         cases.append((ck.rng.random() < 0.5, P, E, rows))
+    # sizes on machine boundaries: few patterns, one to three matching positions chosen among the first, the last and the
+    # positions around every multiple of 32 (an implementation keeping per-element state in a machine word is wrong only here)
+    n_boundary = 0
+    for E in (31, 32, 33, 63, 64, 65, 127, 128, 129, 255, 256, 257):
+        marks = sorted({0, E - 1, E - 2, E // 2} | {m for m in (31, 32, 63, 64, 65, 127, 128) if m < E})
+        for P in (1, 2, 3):
+            for _ in range(6 if ck.tier == "quick" else 40):
+                rows = []
+                for _k in range(P):
+                    on = set(ck.rng.sample(marks, ck.rng.randint(1, min(3, len(marks)))))
+                    rows.append([i in on for i in range(E)])
+                cases.append((True, P, E, rows))
+                n_boundary += 1
+        # exact size: a permutation matrix (every pattern matches exactly one element)
+        perm = list(range(E))
+        ck.rng.shuffle(perm)
+        cases.append((False, E, E, [[i == perm[k] for i in range(E)] for k in range(E)]))
+        cases.append((True, E - 1, E, [[i == perm[k] for i in range(E)] for k in range(E - 1)]))
+        n_boundary += 2
     if ck.tier == "thorough":
         # every permutation of elements and of patterns of random 4x4 / 3x5 matrices
         for _ in range(150):
@@ -166,9 +185,9 @@ def run(ck):
                                broken="correspondence T4/set_match; theorems C10_setMatch_iff, C10_perm_* depend on it"), no_input=(got == want))
     ck.corr_record("T4 set_match (real function via harness/rt vs AsModel.Runtime.setMatch)",
                    len(cases), len(nontrivial), disagree, dist,
-                   samples=[dict(request=lines[k], impl=impl[k], model=model[k]) for k in (n_exh - 1, n_exh + 1, len(lines) - 1)],
+                   samples=[dict(request=lines[k][:200], impl=impl[k], model=model[k]) for k in (n_exh - 1, n_exh + 1, len(lines) - 1)],
                    exhaustive=True,
-                   rule="all Boolean matrices with P,E<=4 (quick: P*E<=12) x both rest values, exhaustively; plus seeded random matrices up to 8x9 with densities 0.15..0.8; thorough adds every permutation of rows/columns of random matrices. distinct = distinct request lines; non-trivial = at least 2 patterns and 2 elements")
+                   rule="all Boolean matrices with P,E<=4 (quick: P*E<=12) x both rest values, exhaustively; plus seeded random matrices up to 8x9 with densities 0.15..0.8; thorough adds every permutation of rows/columns of random matrices; plus %d matrices with 31-33 / 63-65 / 127-129 / 255-257 elements (1-3 patterns matching only at the first, last and word-boundary positions, with `..`; a permutation matrix of the full size, exact and with one pattern fewer). distinct" % n_boundary + " = distinct request lines; non-trivial = at least 2 patterns and 2 elements")
     # the same requests against the runtime crate built WITHOUT debug assertions / overflow checks
     impl2 = ck.rt_batch(lines, profile="nodebug")
     d2 = 0
